@@ -142,4 +142,78 @@ PROPS = {
         require=["clone_from_source_unallocated", "clone_from_same_buckets", "clone_from_different_buckets", "eq_same_contents_checked"],
         assumptions=COMMON_ASSUME,
     ),
+    "C07": dict(
+        level="exploration",
+        rule=("ordered pairs (A,B) of subsets of a 3..24-key universe, each realised by its own random history on top of a random state recipe (so equal sets differ in "
+              "layout, capacity, tombstones and hasher state), with forced equal/subset/superset/complement relations mixed in: union, intersection, difference, "
+              "symmetric_difference (next() with size_hint bracketing at every step, and fold/for_each), is_subset/is_superset/is_disjoint/== (both directions), the "
+              "operators | & ^ - and |= &= ^= -= are compared with BTreeSet; plus 60-step point-operation histories (insert, replace, take, remove, get_or_insert, "
+              "get_or_insert_with lawful and non-equivalent, contains/get, entry) against a set model that tracks which instance is stored. evaluations = pairs and "
+              "point operations checked; distinct = (|A| vs |B| order, subset/superset/disjoint/empty flags, element type, universe) and (operation, presence)"),
+        lanes=dict(
+            quick=lanes(("dbg", 10, 12000), ("generic", 6, 12000)),
+            thorough=lanes(("dbg", 16, 120000), ("generic", 16, 120000)),
+        ),
+        require=["A_smaller", "A_larger", "same_size", "refusals_checked"],
+        assumptions=COMMON_ASSUME,
+    ),
+    "C12": dict(
+        level="fault_enumeration",
+        rule=("for 12 collection x element-layout instantiations (element sizes 1,2,3,6,8,16,24,48,128,208; align up to 64) and 11 state recipes: try_reserve(additional) "
+              "for additional in 0..32, capacity-relative values, 7/8*2^k +-2 for k=2..63, isize::MAX+-1, usize::MAX-{0,1,len}, usize::MAX/size+-1, 2^40, 2^47 (a third "
+              "of the boundary values per state in the quick tier) x allocator behaviour {obeys up to a 1 MiB cap, refuses the next request, refuses the one after}. "
+              "Oracle per case: no panic/abort; Ok => capacity()>=len+additional; AllocError => a refusal with exactly that layout was logged in this call; "
+              "CapacityOverflow => the allocator was not asked and the request is not plainly representable; no invalid layout reaches the allocator; after Err the "
+              "contents, len(), capacity(), the live block (ptr,size,align) and the element registry are unchanged. evaluations = (state, additional, refusal) cases; "
+              "distinct = (collection, recipe, refusal, outcome, magnitude class of additional, table class)"),
+        lanes=dict(
+            quick=lanes(("dbg", 10, 15000), ("generic", 6, 15000)),
+            thorough=lanes(("dbg", 16, 180000), ("generic", 16, 180000), ("asan", 8, 60000)),
+        ),
+        require=["refused_request_reported", "capacity_overflow_reported", "oversize_request_refused_by_cap"],
+        assumptions=COMMON_ASSUME + ["requests above 1 MiB are recorded and refused by the checking allocator, never backed by memory"],
+    ),
+    "C13": dict(
+        level="exploration",
+        rule=("insert/remove churn histories (4k-20k steps quick, 200k thorough) with a bound n in {1,3,7,8,14,28,100,1000} on the live size and no explicit reservation, "
+              "patterns fifo/lifo/random/window/same-key toggle, 13 hash plans (well-mixed through all-colliding), HashMap/HashSet/HashTable; at EVERY step "
+              "allocation_size() must stay <= 8x that of a fresh with_capacity(n); every 97 steps the dump is validated (I1-I5, >=1 EMPTY byte, growth_left not "
+              "over-promised), the bucket count is compared with 8x capacity_to_buckets(n), and a lookup of an absent key must make <= buckets+16 equality calls "
+              "(logical-step bound for termination; hashbrown's probe-length debug assertion is live). evaluations = churn steps; distinct = (collection, n, pattern, plan)"),
+        lanes=dict(
+            quick=lanes(("dbg", 10, 15000), ("generic", 6, 15000)),
+            thorough=lanes(("dbg", 16, 240000), ("generic", 16, 240000)),
+        ),
+        require=["in_place_reclaims_observed", "samples_with_tombstones"],
+        assumptions=COMMON_ASSUME + ["'eventually terminates' is restated as a bounded number of equality callbacks plus the structural precondition (an EMPTY control byte exists); a wall-clock watchdog firing is inconclusive"],
+    ),
+    "C14": dict(
+        level="exploration",
+        rule=("chains of 1-3 entry-style calls (entry, entry_ref, raw_entry_mut from_key/from_key_hashed_nocheck/from_hash with insert/insert_hashed_nocheck/"
+              "insert_with_hasher/insert_key/replace_entry_with, raw_entry, rustc_entry, try_insert; all sub-paths incl. vacant entries dropped unused) started directly on "
+              "freshly built target states: capacity()==len(), tombstone-saturated, unallocated, small, tombstoned, random history; 6 element layouts x 13 hash plans; "
+              "each call compared with the association-list model (Occupied iff present, returned references/values, stored key instance) and followed by the full "
+              "contents comparison and I1-I5. HashSet::entry is covered by the C07 point operations. evaluations = entry-style calls; distinct = state signature x operation"),
+        lanes=dict(
+            quick=lanes(("dbg", 10, 12000), ("generic", 6, 12000)),
+            thorough=lanes(("dbg", 16, 120000), ("generic", 16, 120000), ("miri", 8, 180000)),
+        ),
+        require=["chains_started_at_capacity_eq_len", "chains_started_tombstone_saturated", "chains_started_unallocated", "rehash_in_place"],
+        assumptions=COMMON_ASSUME,
+    ),
+    "C15": dict(
+        level="exploration",
+        rule=("HashMap::get_many_mut / get_many_key_value_mut and HashTable::get_many_mut for N=0..4 with request tuples containing present keys, absent keys and "
+              "duplicates, on states from the recipes under position- and tag-colliding hash plans; the table variant also with sloppy equality closures (match by "
+              "id modulo m) and foreign hashes, so that different hashes can resolve to one bucket. Oracle: the call panics iff (lawful case) two requests resolve to "
+              "one entry; results are in request order, Some iff present; the addresses [p,p+size) of all returned references are pairwise disjoint in every case; "
+              "sentinel values written through the references are found in exactly the requested entries (full model comparison). Miri's borrow tracker runs the same "
+              "scenarios. evaluations = calls; distinct = (N, variant, duplicate, number present, element) and (N, sloppiness, element)"),
+        lanes=dict(
+            quick=lanes(("dbg", 8, 10000), ("generic", 4, 10000), ("miri", 4, 15000)),
+            thorough=lanes(("dbg", 16, 120000), ("generic", 16, 120000), ("miri", 16, 240000)),
+        ),
+        require=["duplicate_panics_observed", "calls_returned", "sloppy_calls_returned"],
+        assumptions=COMMON_ASSUME,
+    ),
 }
